@@ -110,8 +110,12 @@ class Ctx:
         ev = dict(property_id=self.prop, tier=self.tier, seed=self.seed, level=self.level, coverage=cov,
                   assumptions=self.assumptions, wall_s=round(time.time() - self.t0, 2),
                   violations=len(self.violations))
-        os.makedirs(os.path.join(env.VERIF, 'evidence'), exist_ok=True)
-        json.dump(ev, open(os.path.join(env.VERIF, 'evidence', f'{self.prop}.json'), 'w'), indent=1, default=str)
+        # evidence/ only ever holds runs against /repo itself; runs against a scratch tree (VERIF_REPO) go elsewhere
+        evdir = os.environ.get('VERIF_EVIDENCE_DIR') or (
+            os.path.join(env.VERIF, 'evidence') if os.path.realpath(env.REPO) == '/repo'
+            else os.path.join(env.VERIF, 'build', 'evidence-scratch'))
+        os.makedirs(evdir, exist_ok=True)
+        json.dump(ev, open(os.path.join(evdir, f'{self.prop}.json'), 'w'), indent=1, default=str)
         for k in self.known_hits:
             print(f'KNOWN-FINDING: property={self.prop} {k["what"]}', flush=True)
         for v in self.violations:
